@@ -289,9 +289,59 @@ void vf_harness(void)
                 canaries=[{"fn": "Vario::_setResult", "rx": r"updateHhByIndex\(IDIRLOC, i, ww \* dist, false\);", "rp": "updateHhByIndex(IDIRLOC, i, dist, false);", "expect": r"assertion"}])
 
 
+def unit_direction_check(ND=2):
+    """the direction / tolerance / cylinder / bench test applied to every pair (Vario::keepPair -> BiTargetCheckGeometry::isOK)"""
+    pre = """
+typedef _Bool bool;
+#define true 1
+#define false 0
+#define ND %d
+#define TEST 1.234e30
+#define FFFF(x) ((x) != (x) || (x) > 1.233e30)
+#define ABS(x) (((x) < 0.) ? -(x) : (x))
+double __CPROVER_uninterpreted_sqrt(double);
+static double sqrt(double x) { return __CPROVER_uninterpreted_sqrt(x); }
+double _dist; int _ndim; double _codir[ND]; double _psmin, _cylrad, _bench; bool _flagAsym;
+""" % ND
+    f = Fn("BiTargetCheckGeometry::isOK", "src/Geometry/BiTargetCheckGeometry.cpp", r"^bool BiTargetCheckGeometry::isOK\(const SpaceTarget &T1, const SpaceTarget &T2\) const\s*$",
+           csig="bool BiTarget_isOK(void)",
+           rewrites=[(r"_dist = T1\.getDistance\(T2\);", "_dist = W_dist;", 1), (r"VectorDouble delta = T1\.getIncrement\(T2\);", "const double* delta = W_delta;", 1)])
+    h = """
+void vf_harness(void)
+{
+  vf_havoc_inputs();
+  _ndim = W_ndim; __CPROVER_assume(1 <= _ndim && _ndim <= ND);
+  for (int k = 0; k < ND; k++) _codir[k] = W_codir[k];
+  _psmin = W_psmin; _cylrad = W_cylrad; _bench = W_bench; _flagAsym = W_asym ? 1 : 0;
+  bool ok = BiTarget_isOK();
+  /* the definition: cosine of the angle between the separation d and the calculation direction c (whatever the norm of c),
+     distance of the pair to the axis of direction c, vertical offset */
+  double dc = 0., dd = 0., cc = 0.;
+  for (int k = 0; k < ND; k++) if (k < _ndim) { dc += W_delta[k] * W_codir[k]; dd += W_delta[k] * W_delta[k]; cc += W_codir[k] * W_codir[k]; }
+  double cosine = (dd * cc > 0.) ? dc / sqrt(dd * cc) : 1.;
+  bool in_cone = !(ABS(cosine) < W_psmin);
+  bool in_cyl  = !(!FFFF(W_cylrad) && W_cylrad > 0.) || !(((dd * cc > 0.) ? sqrt(dd * (1. - cosine * cosine)) : 0.) > W_cylrad);
+  bool in_bench = !(!FFFF(W_bench) && W_bench > 0.) || !(ABS(W_delta[_ndim - 1]) > W_bench);
+  if (W_dist <= 0.) __CPROVER_assert(ok, "a pair of coincident samples is kept");
+  else __CPROVER_assert((ok != 0) == (in_cone && in_cyl && in_bench), "a pair is kept exactly when its separation lies within the angular tolerance of the direction (cosine w.r.t. the direction vector whatever its norm), within the cylinder and within the bench");
+  if (W_dist > 0. && ok) __CPROVER_assert(_dist == ((W_asym && cosine < W_psmin) ? -W_dist : W_dist), "the separation reported for a kept pair is the distance, negated for the backward half of an asymmetric calculation");
+  VF_REACH();
+}
+"""
+    return Unit("C12.BiTargetCheckGeometry.isOK", [f], prelude=pre, harness=h, pre_inputs="typedef _Bool bool;\n", unwind=ND + 1, checks=[], backends=("cvc5", "minisat"), timeout=600,
+                inputs=[("int", "W_ndim"), ("double", "W_dist"), ("double", "W_delta", str(ND)), ("double", "W_codir", str(ND)), ("double", "W_psmin"), ("double", "W_cylrad"), ("double", "W_bench"), ("bool", "W_asym")],
+                bounded="space dimension <= %d (unwinding assertions)" % ND,
+                claim=("BiTargetCheckGeometry::isOK (the direction test applied to every pair by Vario::keepPair): a pair is kept exactly when the cosine between its separation and "
+                       "the calculation direction — normalised by BOTH norms, the direction vector need not be a unit vector — reaches the cosine of the angular tolerance, the pair lies "
+                       "within the cylinder radius and within the bench; coincident samples are kept; the reported separation carries the asymmetric sign"),
+                assumptions=["sqrt uninterpreted; floating-point sums written in the same order as the definition (equality of identical terms)",
+                             "SpaceTarget::getDistance / getIncrement: arbitrary distance and increment"],
+                canaries=[{"fn": "BiTargetCheckGeometry::isOK", "rx": r"if \(dortho > _cylrad\) return false;", "rp": ";", "expect": r"assertion"}])
+
+
 def units(tier):
     nmax = 6 if tier == "quick" else 10
-    return [unit_lagrank_irregular(nmax), unit_lagrank_regular(), unit_pair_skeleton(3 if tier == 'quick' else 4), unit_accumulate('variogram')] + ([unit_accumulate('covariance')] if tier != 'quick' else [])
+    return [unit_lagrank_irregular(nmax), unit_lagrank_regular(), unit_pair_skeleton(3 if tier == 'quick' else 4), unit_accumulate('variogram'), unit_direction_check(2 if tier == 'quick' else 3)] + ([unit_accumulate('covariance')] if tier != 'quick' else [])
 
 
 META = {
@@ -299,11 +349,11 @@ META = {
     "explanation": "Lag-index function proved (irregular lags unbounded up to a lag-count cap; regular lags for bounded magnitudes).",
     "trusted_base": ["CBMC 6.11", "cvc5 floating-point theory"],
     "assumptions": [],
-    "not_covered": ["accumulation arithmetic (_evaluate*, _rescale, _centerCovariance)", "BiTargetCheck geometry", "grid algorithm", "sort order of rindex"],
+    "not_covered": ["_rescale, _centerCovariance", "the other pair checkers (faults, code, date)", "grid algorithm", "sort order of rindex"],
 }
 MANIFEST = {
     "category": "other",
-    "text": "Contracts on the lag-index function (half-open disjoint classes; tolerance rule) and on the pair-enumeration skeleton of the general algorithm.",
+    "text": "Contracts on the lag-index function (half-open disjoint classes; tolerance rule), on the pair-enumeration skeleton and the accumulation step of the general algorithm, and on the direction / tolerance / cylinder / bench test of a pair (bounded dimension).",
     "note": "Accumulation arithmetic and geometry checkers are not claimed.",
     "design_ref": "DESIGN.md 3 C12",
 }
